@@ -121,6 +121,7 @@ func (t *tr) stmt(s ast.Stmt) {
 	case *ast.SendStmt:
 		t.ev(x.Chan)
 		t.ev(x.Value)
+		t.chanToken(t.typeOf(x.Chan), -1)
 	case *ast.SelectStmt:
 		t.detViolation("select", x.Pos(), "select statement")
 		t.selectStmt(x)
@@ -211,6 +212,7 @@ func (t *tr) evMulti(e ast.Expr, n int) []Term {
 	case *ast.UnaryExpr:
 		if x.Op == token.ARROW && n == 2 {
 			t.ev(x.X)
+			t.chanToken(t.typeOf(x.X), 1)
 			ct := t.typeOf(x.X).Underlying().(*types.Chan)
 			return []Term{t.havocTerm("recv", ct.Elem()), t.havocTerm("recvok", types.Typ[types.Bool])}
 		}
